@@ -249,3 +249,215 @@ def rule_ow_pandas(cx, rep, port='py'):
     rets = [r for r in walk_no_nested(gr) if isinstance(r, ast.Return) and r.value is not None and not (isinstance(r.value, ast.Constant) and r.value.value is None)]
     ok = rets and all(isinstance(r.value, ast.Call) and dotted(r.value.func) == 'list' for r in rets)
     rep.decide(bool(ok), 'DataframeIterator.get_record', gr, 'rows leave the adapter as fresh lists', 'a dataframe row is handed to the engine without conversion to a fresh list')
+
+
+# ------------------------------------------------------------------------------------------------ ownership (OW-MUT / OW-FRESH)
+from .. import ownership, roles  # noqa: E402
+from ..idioms import MUTATORS  # noqa: E402
+from ..model import func_params  # noqa: E402
+
+
+def _program(cx, port):
+    def build():
+        p = cx.port(port)
+        mods = ['rbql_engine', 'rbql_csv', 'csv_utils', 'rbql_pandas', 'rbql_sqlite'] if port == 'py' else ['rbql', 'rbql_csv', 'csv_utils']
+        sks, errs = cx.skeletons(port)
+        return ownership.Program(p, [m for m in mods if m in p.modules], sks)
+    return cx.cached(('ownership', port), build)
+
+
+def _mutates_summary(prog):
+    """function -> set of its parameter names that it may modify in place (directly, through simple aliases/elements, or via callees)"""
+    mut = {id(fd): set() for fd in prog.funcs}
+    byid = {id(fd): fd for fd in prog.funcs}
+
+    def base_param(e, fd, params):
+        # p, p[i], p[i][j], alias = p
+        while isinstance(e, ast.Subscript):
+            e = e.value
+        if isinstance(e, ast.Name):
+            if e.id in params:
+                return e.id
+            defs = [n for n in prog.body_nodes(fd) if isinstance(n, ast.Assign) and any(isinstance(t, ast.Name) and t.id == e.id for t in n.targets)]
+            fors = [n for n in prog.body_nodes(fd) if isinstance(n, ast.For) and isinstance(n.target, ast.Name) and n.target.id == e.id]
+            for d in defs:
+                v = d.value
+                while isinstance(v, ast.Subscript) and not isinstance(v.slice, ast.Slice):
+                    v = v.value
+                if isinstance(v, ast.Name) and v.id in params and v.id != e.id:
+                    return v.id
+            for f in fors:
+                if isinstance(f.iter, ast.Name) and f.iter.id in params:
+                    return f.iter.id
+        return None
+    for fd in prog.funcs:
+        params = func_params(fd) if isinstance(fd, ast.FunctionDef) else []
+        for node, target, desc in prog.mutation_sites(fd):
+            bp = base_param(target, fd, params)
+            if bp and bp != 'self':
+                mut[id(fd)].add(bp)
+    changed = True
+    while changed:
+        changed = False
+        for fd in prog.funcs:
+            params = func_params(fd) if isinstance(fd, ast.FunctionDef) else []
+            for n in prog.body_nodes(fd):
+                if not isinstance(n, ast.Call):
+                    continue
+                nm = call_name(n)
+                short = nm.split('.')[-1] if nm else None
+                if not short:
+                    continue
+                cands = list(prog.by_name.get(short, []))
+                for m in prog.call_sites() and prog.slots.get(short, ()):
+                    cands += prog.by_name.get(m, [])
+                for g in cands:
+                    gp = func_params(g)
+                    off = 1 if gp and gp[0] == 'self' else 0
+                    for i, a in enumerate(n.args):
+                        if i + off < len(gp) and gp[i + off] in mut[id(g)]:
+                            bp = base_param(a, fd, params)
+                            if bp and bp != 'self' and bp not in mut[id(fd)]:
+                                mut[id(fd)].add(bp)
+                                changed = True
+    return mut
+
+
+def _describe(atoms):
+    kinds = sorted({a[0] for a in atoms})
+    return ','.join(kinds)
+
+
+def rule_ow_mut(cx, rep, port):
+    """no mutating operation is applied to a value whose origin is a caller's source object"""
+    prog = _program(cx, port)
+    p = cx.port(port)
+    n = 0
+    n_unknown = 0
+    sites = []
+    for fd in prog.funcs:
+        for node, target, desc in prog.mutation_sites(fd):
+            sites.append((fd, node, target, desc))
+    solved = prog.solve([(t, fd) for fd, node, t, desc in sites])
+    for (fd, node, target, desc), atoms in zip(sites, solved):
+        sk = getattr(fd, 'skeleton', None)
+        fname = prog.qual(fd) if sk is None else 'skeleton[{}]'.format(sk.name)
+        if True:
+            n += 1
+            inputs = [a for a in atoms if a[0] == 'input']
+            key = '{}: {} on `{}`'.format(fname, desc, node_text(target, 60))
+            if inputs:
+                src = inputs[0][1]
+                rep.violated(key, node, 'the object modified here can be a caller\'s source object (origin: `{}` at line {}): the query changes its input'.format(node_text(src, 80), getattr(src, 'lineno', '?')))
+            elif any(a[0] == 'unknown' for a in atoms):
+                n_unknown += 1
+            else:
+                pass
+    rep.holds('mutation sites', (p.files[cx.engine_mod(port)], 0), '{} in-place modification sites in library code and composed skeletons analysed; none reaches an input object ({} with an unresolved origin among receivers that are not records)'.format(n, n_unknown))
+    rep.require_count('mutation sites', n, 60, (p.files[cx.engine_mod(port)], 0))
+    # the generated assignments: safe_set(up_fields, idx, value)
+    tu = p.func(cx.engine_mod(port), 'translate_update_expression')
+    t = node_text(tu, 6000)
+    ok = ("'safe_set(up_fields, {}, '.format(var_info.index)" in t) if port == 'py' else ("safe_set(up_fields, {var_index}, " in t)
+    rep.decide(ok, 'generated assignments', tu, 'every UPDATE assignment is safe_set(up_fields, index, value): only the per-record copy is written', 'generated UPDATE assignments no longer write through safe_set(up_fields, ...)')
+
+
+def rule_ow_fresh(cx, rep, port):
+    """every record handed to a sink (which may keep or modify it) is freshly allocated by the engine; headers handed to a
+    sink that modifies them are not the caller's"""
+    prog = _program(cx, port)
+    p = cx.port(port)
+    mod = cx.engine_mod(port)
+    sink_names = {c.name for c in roles.sinks(p)}
+    chain_names = {c.name for c in roles.chain_writers(p, mod)}
+    mut = _mutates_summary(prog)
+    # 1. records reaching write()
+    n = 0
+    wsites = []
+    for (fd, call) in prog.call_sites().get('write', []):
+        recv = dotted(call.func.value) if isinstance(call.func, ast.Attribute) else None
+        if recv is None or not (recv.endswith('writer') or recv.endswith('subwriter')):
+            continue
+        if not call.args:
+            continue
+        wsites.append((fd, call))
+    wsolved = prog.solve([(call.args[-1], fd) for fd, call in wsites])
+    for (fd, call), atoms in zip(wsites, wsolved):
+        arg = call.args[-1]
+        n += 1
+        sk = getattr(fd, 'skeleton', None)
+        fname = prog.qual(fd) if sk is None else 'skeleton[{}]'.format(sk.name)
+        atoms = _resolve_holes(cx, port, atoms)
+        key = '{}: {}'.format(fname, node_text(call, 80))
+        inputs = [a for a in atoms if a[0] == 'input']
+        unknown = [a for a in atoms if a[0] == 'unknown']
+        if inputs:
+            rep.violated(key, call, 'a record that can be a caller\'s input row (origin `{}` line {}) is handed to the output writer: output aliases input, and writers that normalise fields in place modify the source'.format(node_text(inputs[0][1], 80), getattr(inputs[0][1], 'lineno', '?')))
+        elif unknown:
+            rep.undecided(key, call, 'origin of the written record not resolved: `{}`'.format(node_text(unknown[0][1], 80)))
+        else:
+            rep.holds(key, call, 'origins: {}'.format(_describe(atoms)))
+    rep.require_count('writer.write call sites', n, 8, (p.files[mod], 0))
+    # 2. headers
+    hdr_mutators = [g for g in prog.by_name.get('set_header', []) if any(q in mut[id(g)] for q in func_params(g)[1:2])]
+    m = 0
+    for (fd, call) in prog.call_sites().get('set_header', []):
+        if not call.args:
+            continue
+        m += 1
+        atoms = prog.solve([(call.args[0], fd)])[0]
+        key = '{}: {}'.format(prog.qual(fd), node_text(call, 80))
+        inputs = [a for a in atoms if a[0] == 'input']
+        if hdr_mutators and inputs:
+            g = hdr_mutators[0]
+            rep.violated(key, call, 'the header passed here can be the caller\'s own column-name list (origin `{}` line {}) and {}.set_header modifies its argument in place'.format(node_text(inputs[0][1], 80), getattr(inputs[0][1], 'lineno', '?'), prog.qual(g).split('.')[0]))
+        else:
+            rep.holds(key, call, 'no header-modifying set_header implementation' if not hdr_mutators else 'header origins: {}'.format(_describe(atoms)))
+    rep.require_count('set_header call sites', m, 2, (p.files[mod], 0))
+    # 3. summary table of which library functions modify which parameter (evidence + regression anchor)
+    table = sorted('{}({})'.format(prog.qual(byfd), ','.join(sorted(ps))) for byfd, ps in ((g, mut[id(g)]) for g in prog.funcs if getattr(g, 'skeleton', None) is None) if ps)
+    rep.holds('parameter-modifying functions', (p.files[mod], 0), '; '.join(table)[:380])
+
+
+def _resolve_holes(cx, port, atoms):
+    """the select fragment is a list display / select_except(...) call, i.e. fresh (decided from the templates that produce it)"""
+    out = set()
+    for a in atoms:
+        if a[0] == 'hole':
+            if a[1] == 'select_expression' and _select_templates_fresh(cx, port):
+                out.add(('fresh', None))
+            elif a[1] in ('sort_key_expression', 'aggregation_key_expression', 'where_expression', 'lhs_join_var_expression'):
+                out.add(('imm', None))
+            else:
+                out.add(('unknown', ast.Name(id='<hole {}>'.format(a[1]), ctx=ast.Load())))
+        else:
+            out.add(a)
+    return out
+
+
+def _select_templates_fresh(cx, port):
+    def compute():
+        p = cx.port(port)
+        mod = cx.engine_mod(port)
+        ok = True
+        for fname, idx in (('translate_select_expression', 0), ('translate_except_expression', 1)):
+            fd = p.func(mod, fname)
+            rets = [r for r in walk_no_nested(fd) if isinstance(r, ast.Return) and isinstance(r.value, (ast.Tuple, ast.List))]
+            if not rets:
+                return False
+            e = rets[-1].value.elts[idx]
+            tmpl = None
+            if isinstance(e, ast.Call) and isinstance(e.func, ast.Attribute) and e.func.attr == 'format' and isinstance(e.func.value, ast.Constant):
+                tmpl = e.func.value.value.replace('{}', '__X__')
+            elif isinstance(e, ast.JoinedStr):
+                tmpl = ''.join(str(v.value) if isinstance(v, ast.Constant) else '__X__' for v in e.values)
+            if tmpl is None:
+                return False
+            try:
+                tree = ast.parse(tmpl, mode='eval').body
+            except SyntaxError:
+                return False
+            fresh = isinstance(tree, ast.List) or (isinstance(tree, ast.Call) and dotted(tree.func) == 'select_except') or (isinstance(tree, ast.Call) and isinstance(tree.func, ast.Attribute) and tree.func.attr == 'concat' and isinstance(tree.func.value, ast.List))
+            ok = ok and fresh
+        return ok
+    return cx.cached(('select_templates_fresh', port), compute)
